@@ -31,6 +31,14 @@ Definition SQ : ascii := "'"%char.
 Definition bytes_to_string (l : list nat) : string :=
   fold_right (fun n s => String (ascii_of_nat n) s) EmptyString l.
 
+(* hex-encoded bytes (lower case), used by the harness to write arbitrary byte strings compactly *)
+Definition hexv (c : ascii) : N := let n := cn c in if (n <? 58)%N then (n - 48)%N else (n - 87)%N.
+Fixpoint hx (s : string) : string :=
+  match s with
+  | String a (String b r) => String (ascii_of_N (hexv a * 16 + hexv b)) (hx r)
+  | _ => EmptyString
+  end.
+
 Definition sapp := String.append.
 Infix "+++" := String.append (right associativity, at level 60).
 
@@ -118,8 +126,9 @@ Definition stays_in_literal (s : string) : Prop := run_lit s InLit = Some InLit.
 Definition stays_in_literalb (s : string) : bool :=
   match run_lit s InLit with Some InLit => true | _ => false end.
 
-(* states in which a fragment may end: in code, or just after the quote that closed a literal *)
-Definition codeish (q : qstate) : bool := match q with Code | CodeE | InLitQ => true | _ => false end.
+(* states in which a fragment may end: in code (possibly just after an e/E or a minus sign), or just after the quote
+   that closed a literal *)
+Definition codeish (q : qstate) : bool := match q with Code | CodeE | CodeDash | InLitQ => true | _ => false end.
 
 (* the SQL with the content of every literal removed: a literal '...' becomes a single '.
    This is "the structure" of a statement: two statements with the same blank differ only inside literals. *)
@@ -425,15 +434,16 @@ Definition seg_ok (s : string) : bool := seg_go s true.
 Definition valid_filter (a : string) : bool := forallb (fun g => is_empty g || seg_ok g) (split_colon a).
 
 (* A query text as the Go code builds it, with the provenance of its parts:
-   T = text of the program, C = text of the client formatted directly into the query text,
+   T = text of the program, D = a number the program writes with %d / fmt.Sprint,
+   C = text of the client formatted directly into the query text,
    A = a placeholder '?' together with the argument bound to it. *)
-Inductive tpl := T (s : string) | C (s : string) | A (a : jval).
+Inductive tpl := T (s : string) | D (n : nat) | C (s : string) | A (a : jval).
 
 Fixpoint tjoin (sep : string) (l : list (list tpl)) : list tpl :=
   match l with [] => [] | [x] => x | x :: r => (x ++ T sep :: tjoin sep r)%list end.
 
 (* the query text and the argument list handed to bun *)
-Definition tpl_text (t : tpl) : string := match t with T s => s | C s => s | A _ => "?" end.
+Definition tpl_text (t : tpl) : string := match t with T s => s | D n => dec n | C s => s | A _ => "?" end.
 Definition q_text (tp : list tpl) : string := sconcat (map tpl_text tp).
 Fixpoint q_args (tp : list tpl) : list jval :=
   match tp with [] => [] | A a :: r => a :: q_args r | _ :: r => q_args r end.
@@ -446,43 +456,47 @@ Fixpoint seg_parts (key : string) (i : nat) (l : list string) : list (list tpl) 
   | [] => []
   | g :: r =>
       if is_empty g then seg_parts key (S i) r
-      else [T (key +++ "_array @@ ('$[" +++ dec i +++ "] == " +++ String DQ EmptyString); C g;
+      else [T (key +++ "_array @@ ('$["); D i; T ("] == " +++ String DQ EmptyString); C g;
             T (String DQ "')::jsonpath")] :: seg_parts key (S i) r
   end.
 Definition render_address (key a : string) : list tpl :=
   let src := split_colon a in
   if has_empty src then
-    tjoin " and " ([T ("jsonb_array_length(" +++ key +++ "_array) = " +++ dec (List.length src))] :: seg_parts key 0 src)
+    tjoin " and " ([T ("jsonb_array_length(" +++ key +++ "_array) = "); D (List.length src)] :: seg_parts key 0 src)
   else [T (key +++ " = '"); C a; T "'"].
 
 (* filterAccountAddressOnTransactions(address, source, destination) *)
-Fixpoint seg_entries (i : nat) (l : list string) : list (string * string) :=
+(* the entries of the JSON object {"<len>":null,"<i>":"<segment>",...}: key text (for json.Marshal's bytewise key
+   order), the number it prints, the value *)
+Inductive mval := MNull | MSeg (g : string).
+Definition mentry := (string * (nat * mval))%type.
+
+Fixpoint seg_entries (i : nat) (l : list string) : list mentry :=
   match l with
   | [] => []
-  | g :: r => if is_empty g then seg_entries (S i) r else (dec i, g) :: seg_entries (S i) r
+  | g :: r => if is_empty g then seg_entries (S i) r else (dec i, (i, MSeg g)) :: seg_entries (S i) r
   end.
 
-(* one entry of the JSON object {"<len>":null,"<i>":"<segment>",...}; the empty marker stands for null *)
-Inductive mval := MNull | MSeg (g : string).
-Fixpoint insert_m (x : string * mval) (l : list (string * mval)) : list (string * mval) :=
+Fixpoint insert_m (x : mentry) (l : list mentry) : list mentry :=
   match l with
   | [] => [x]
   | y :: r => if str_ltb (fst y) (fst x) then y :: insert_m x r else x :: l
   end.
-Fixpoint isort_m (l : list (string * mval)) : list (string * mval) :=
+Fixpoint isort_m (l : list mentry) : list mentry :=
   match l with [] => [] | x :: r => insert_m x (isort_m r) end.
 
-Definition entry_tpl (e : string * mval) : list tpl :=
-  match snd e with
-  | MNull => [T (json_string (fst e) +++ ":null")]
-  | MSeg g => [T (json_string (fst e) +++ ":" +++ String DQ EmptyString); C (json_body g); T (String DQ EmptyString)]
+(* "<i>":null  or  "<i>":"<segment>"  (the key is a decimal number, which json.Marshal writes unchanged) *)
+Definition entry_tpl (e : mentry) : list tpl :=
+  match snd (snd e) with
+  | MNull => [T (String DQ EmptyString); D (fst (snd e)); T (String DQ ":null")]
+  | MSeg g => [T (String DQ EmptyString); D (fst (snd e)); T (String DQ (":" +++ String DQ EmptyString));
+               C (json_body g); T (String DQ EmptyString)]
   end.
 
 Definition on_tx_data (a : string) : list tpl :=
   let src := split_colon a in
   if has_empty src then
-    (T "[{" :: tjoin "," (map entry_tpl (isort_m ((dec (List.length src), MNull)
-                                                    :: map (fun kg => (fst kg, MSeg (snd kg))) (seg_entries 0 src))))
+    (T "[{" :: tjoin "," (map entry_tpl (isort_m ((dec (List.length src), (List.length src, MNull)) :: seg_entries 0 src)))
        ++ [T "}]"])%list
   else [T ("[" +++ String DQ EmptyString); C (json_body a); T (String DQ "]")].
 
@@ -642,7 +656,7 @@ Inductive piece := Fx (s : string) | Cl (s : string).
 Definition arg_pieces (a : jval) : list piece :=
   if is_text_arg a then [Fx (String SQ EmptyString); Cl (arg_body a); Fx (String SQ EmptyString)] else [Fx (arg_body a)].
 Definition tpl_pieces (t : tpl) : list piece :=
-  match t with T s => [Fx s] | C s => [Cl s] | A a => arg_pieces a end.
+  match t with T s => [Fx s] | D n => [Fx (dec n)] | C s => [Cl s] | A a => arg_pieces a end.
 Definition pieces (tp : list tpl) : list piece := flat_map tpl_pieces tp.
 
 Definition piece_text (p : piece) : string := match p with Fx s => s | Cl s => s end.
